@@ -22,6 +22,27 @@ from . import lib
 
 AREA = "Fees"
 TRACE_PARTS = 6
+KNOWN_ORCHARD = "C07-orchard-outputs-after-nu63"
+
+
+def known_env():
+    """The trace specification excuses the class of known finding C07-orchard-outputs-after-nu63 only while
+    known_findings.json lists it as open."""
+    is_open = any(f.get("property") == "C07" and f.get("id") == KNOWN_ORCHARD and f.get("status") == "open"
+                  for f in lib.load_known_findings())
+    return {"C07_KNOWN_ORCHARD_OUTPUTS": "1" if is_open else "0"}
+
+
+def in_known_orchard_class(rec):
+    """A returned balance after NU6.3 for a request with Orchard output value that makes the Orchard pool gain."""
+    if rec["a"] != "bal" or rec["o"]["k"] != "balance":
+        return False
+    q, o = rec["q"], rec["o"]
+    if not (q["nu63H"] >= 0 and q["targetH"] >= q["nu63H"]):
+        return False
+    o_in, o_out = sum(val(v) for v in q["oin"]), sum(val(v) for v in q["oout"])
+    o_chg = sum(val(c["v"]) for c in o["change"] if c["pool"] == "orchard" and not c["eph"])
+    return o_out > 0 and o_out + o_chg > o_in
 
 
 # ------------------------------------------------------------------------------------------------
@@ -141,7 +162,7 @@ def mc_jobs(ctx, d, pool):
         cfg = name + ".cfg"
         write_cfg(os.path.join(d, cfg), ["SPECIFICATION Spec", "CONSTANTS MaxIn = 220", "  Slices = %d" % slices,
                                          "  Slice = %d" % s,
-                                         "INVARIANTS Satisfiable Sensitive Promises AlgorithmMeetsPostconditions",
+                                         "INVARIANTS Satisfiable Sensitive Promises AlgorithmMeetsPostconditions LiteralTurnstile",
                                          "CHECK_DEADLOCK FALSE"])
 
         def job(name=name, cfg=cfg):
@@ -202,13 +223,14 @@ def write_trace(path, recs):
             f.write(json.dumps(r) + "\n")
 
 
-def validate_part(ctx, d, module, recs, path, max_viol=2):
+def validate_part(ctx, d, module, recs, path, max_viol=2, env=None):
     """Validates recs; after a rejected record validation resumes behind it. Returns
     (accepted_count, [(record, why)], [TlcResult])."""
     rejected, results, accepted, start = [], [], 0, 0
     while start < len(recs):
         write_trace(path, recs[start:])
-        ok, n, detail, r = lib.tlc_validate(ctx, d, module, "Trace_ChangeStrategy.cfg", path, timeout=2400)
+        ok, n, detail, r = lib.tlc_validate(ctx, d, module, "Trace_ChangeStrategy.cfg", path, timeout=2400,
+                                            env_extra=env if env is not None else known_env())
         why = r.prints("WHY")
         r.out = ""
         results.append(r)
@@ -268,12 +290,8 @@ def trace_stats(recs):
         nu63 = q["nu63H"] >= 0 and q["targetH"] >= q["nu63H"]
         if o["k"] == "balance":
             ch = [c for c in o["change"] if not c["eph"]]
-            # observation only (not judged, see notes/c07-report.md): after NU6.3 the requested Orchard outputs alone
-            # would not grow the Orchard pool, but outputs + Orchard change exceed the Orchard inputs
-            o_in, o_out = sum(val(v) for v in q["oin"]), sum(val(v) for v in q["oout"])
-            o_chg = sum(val(c["v"]) for c in ch if c["pool"] == "orchard")
-            if nu63 and o_chg > 0 and o_out <= o_in < o_out + o_chg:
-                inc("observation:orchard_pool_grows_by_outputs_plus_change_post_nu63")
+            if in_known_orchard_class(r):
+                inc("known:orchard_outputs_after_nu63_pool_gains")
             pools = sorted(set(c["pool"] for c in ch))
             inc("balance:change_notes=%d" % min(len(ch), 3))
             for p in pools:
@@ -325,6 +343,17 @@ def run(ctx):
     missing = [k for k in REQUIRED_COVERAGE if stats.get(k, 0) == 0]
     if missing:
         raise lib.ToolError("vacuity: the trace never exercises %s" % ", ".join(missing))
+    n_known = stats.get("known:orchard_outputs_after_nu63_pool_gains", 0)
+    if n_known and known_env()["C07_KNOWN_ORCHARD_OUTPUTS"] == "1":
+        ex = next(r for r in recs if in_known_orchard_class(r))
+        pq, po = pretty(ex["q"]), pretty(ex["o"])
+        lib.known_finding(ctx, "id=%s after NU6.3 the Orchard pool gains value when the request carries Orchard outputs "
+                               "(%d calls of this run, excused while the entry is open; e.g. sin %s oin %s oout %s at height %s -> "
+                               "change %s fee %s)"
+                          % (KNOWN_ORCHARD, n_known, pq["sin"], pq["oin"], pq["oout"], pq["targetH"],
+                             [(c["pool"], c["v"]) for c in po["change"]], po["fee"]))
+    elif known_env()["C07_KNOWN_ORCHARD_OUTPUTS"] == "1":
+        lib.log("note: no call of this run falls into the class of known finding %s although the entry is open" % KNOWN_ORCHARD)
     if stats.get("out:panic", 0):
         lib.log("note: %d calls panicked (the specification allows none)" % stats["out:panic"])
     parts = TRACE_PARTS if ctx.quick() else 2 * TRACE_PARTS
@@ -446,7 +475,8 @@ def selftest(ctx):
     corruptions.append(("a marginal fee moved from change to fee (conserving, but not the ZIP 317 fee)", i, c))
     c = json.loads(json.dumps(recs[i])); c["o"]["dummy"][1] += 1
     corruptions.append(("recorded Orchard padding + 1", i, c))
-    i = find(lambda r: is_bal(r, "insufficient"))
+    # (standard rule, not Reject: every legitimate `required` is outputs + a multiple of 5000, so +1 matches none)
+    i = find(lambda r: is_bal(r, "insufficient") and r["q"]["rule"]["m"] == 5000 and r["q"]["act"] != "reject")
     c = json.loads(json.dumps(recs[i])); c["o"]["required"] = dig(val(c["o"]["required"]) + 1)
     corruptions.append(("InsufficientFunds.required + 1", i, c))
     i = find(lambda r: is_bal(r, "balance"))
@@ -469,10 +499,35 @@ def selftest(ctx):
         bad[i] = c
         p = ctx.path("self_bad.ndjson")
         write_trace(p, bad)
-        ok, n, detail, r = lib.tlc_validate(ctx, d, "Trace_ChangeStrategy", "Trace_ChangeStrategy.cfg", p, timeout=900)
+        ok, n, detail, r = lib.tlc_validate(ctx, d, "Trace_ChangeStrategy", "Trace_ChangeStrategy.cfg", p, timeout=900,
+                                            env_extra=known_env())
         if ok or n != i + 1:
             raise lib.ToolError("selftest: corruption not rejected at its index (%s; record %d, verdict %s %s)" % (what, i + 1, ok, n))
         lib.log("selftest ok: %s -> rejected at record %d" % (what, n))
+    # the known-finding switch excuses exactly its class: the documented call is accepted with the switch on and
+    # rejected with it off; a gain of the Orchard pool without requested Orchard outputs is rejected either way
+    # (corruption "change re-routed into Orchard" above ran with the switch as configured)
+    tmpl = json.loads(json.dumps(recs[find(lambda r: r["a"] == "bal")]))
+    tmpl["q"].update({"ruleKind": 0, "rule": {"m": 5000, "g": 2, "pin": 150, "pout": 34}, "strat": "single", "hasMeta": False,
+                      "splitSingle": False, "target": 1, "minSplit": [], "notes": -1, "metaVar": 0, "act": "reject",
+                      "hasThr": False, "thr": [], "fallback": "sapling", "memo": False, "ephK": "none", "ephV": [],
+                      "targetH": 350, "nu5H": 100, "nu63H": 200, "anchorH": 143, "interval": 144, "ov3": True, "ovKind": 2,
+                      "sapType": "default", "tinV": [], "tinS": [], "tinK": [], "toutV": [], "toutS": [], "toutL": [],
+                      "sin": [dig(50000)], "sout": [], "oin": [dig(100000)], "oout": [dig(60000)], "iin": [], "iout": []})
+    rq, ro = ctx.path("self_known_req.ndjson"), ctx.path("self_known.ndjson")
+    write_trace(rq, [tmpl])
+    lib.run_bin(os.path.join(bindir, "c07_driver"), ["exec", rq, ro], timeout=600)
+    krec = read_trace(ro)
+    if not in_known_orchard_class(krec[0]):
+        lib.log("selftest note: the documented call of %s no longer makes the Orchard pool gain: %s"
+                % (KNOWN_ORCHARD, json.dumps(pretty(krec[0]["o"]))[:300]))
+    else:
+        for sw, want in (("1", True), ("0", False)):
+            ok, n, detail, r = lib.tlc_validate(ctx, d, "Trace_ChangeStrategy", "Trace_ChangeStrategy.cfg", ro, timeout=900,
+                                                env_extra={"C07_KNOWN_ORCHARD_OUTPUTS": sw})
+            if ok != want:
+                raise lib.ToolError("selftest: known-finding switch %s: documented call accepted=%s" % (sw, ok))
+        lib.log("selftest ok: %s is excused only while the switch is on" % KNOWN_ORCHARD)
     # a dropped record is noticed by the count comparison
     short = recs[:-1]
     acc, rejected, _ = validate_part(ctx, d, "Trace_ChangeStrategy", short, ctx.path("self_short.ndjson"))
